@@ -16,5 +16,21 @@ impl PktInfoUdpSocket {
 #[verifier::external_body] pub struct SocketAddr { x: u8 }
 // builds the packets (DnsOutgoing::to_data_on_wire) and multicasts / unicasts them on one interface
 #[verifier::external_body]
+// wire contract of a unicast (legacy, RFC 6762 6.7) reply as stub precondition: it keeps its ID (is marked unicast) and
+// carries no cache-flush bit
 pub fn send_dns_outgoing(out: &DnsOutgoing, my_intf: &MyIntf, sock: &PktInfoUdpSocket, port: u16, source: Option<&IfAddr>, unicast_dest: Option<SocketAddr>) -> (r: MyResult<Vec<Vec<u8>>>)
+    requires
+        unicast_dest is Some ==> !out.multicast, // @props C06
+        unicast_dest is Some ==> no_flush(ashapes(out.answers@)) && no_flush(shapes(out.additionals@)), // @props C06
 { unimplemented!() }
+
+pub open spec fn flush_of(s: RecShape) -> bool {
+    match s {
+        RecShape::Ptr { flush, .. } => flush,
+        RecShape::Srv { flush, .. } => flush,
+        RecShape::Txt { flush, .. } => flush,
+        RecShape::Addr { flush, .. } => flush,
+        RecShape::Other => false,
+    }
+}
+pub open spec fn no_flush(v: Seq<RecShape>) -> bool { forall|k: int| 0 <= k < v.len() ==> !flush_of(#[trigger] v[k]) }
